@@ -7,7 +7,8 @@ desc = {
   'storage': 'default'|'annotations'|'status'|'smart', 'prefix': 'kopf.zalando.org', 'lifecycle': 'asap'|...,
   'kube': {'del_keep_finalizer': bool, 'del_bump_patch_rv': bool},
   'timeline': [[t, op, *args], ...]  sorted by t. ops:
-       actor:    create name body | edit name patch | delete name | force_remove name | status name patch
+       actor:    create name body | edit name patch | delete name | force_remove name | status name patch   (name may be 'ns/name')
+       cluster:  ns_add name | ns_del name | crd_add resdef | crd_del plural [group]
        operator: start inc | stop inc | kill inc | cancel inc
        server:   compact | break how | bookmark
        peers:    peer identity priority lifetime | unpeer identity     (a foreign operator's record in the peering object; needs 'peering')
@@ -113,8 +114,8 @@ def run_world(desc: dict[str, Any], *, scoped: bool = True, capture_logs: bool =
     plural = desc.get('plural', 'kopfexamples')
     ns = desc.get('ns', 'ns1')
 
-    def mk_settings() -> Any:
-        s = sim.settings(**(desc.get('settings') or {}))
+    def mk_settings(over: dict[str, Any] | None = None) -> Any:
+        s = sim.settings(**{**(desc.get('settings') or {}), **(over or {})})
         if peering:
             s.peering.standalone = False
             s.peering.mandatory = True
@@ -178,6 +179,33 @@ def run_world(desc: dict[str, Any], *, scoped: bool = True, capture_logs: bool =
             plural = saved
 
     def _apply_actor(kind: str, op: list[Any]) -> None:
+        nonlocal ns
+        saved_ns = ns
+        if len(op) > 1 and isinstance(op[1], str) and '/' in op[1] and kind in ('create', 'edit', 'delete', 'force_remove', 'fin_add', 'fin_del'):
+            op = list(op)
+            ns, op[1] = op[1].split('/', 1)       # 'ns2/o1': an object in another namespace
+        try:
+            _apply_actor2(kind, op)
+        finally:
+            ns = saved_ns
+
+    def _apply_actor2(kind: str, op: list[Any]) -> None:
+        if kind == 'ns_add':
+            if kube.get('namespaces', None, op[1]) is None:
+                kube.create('namespaces', None, op[1], {'apiVersion': 'v1', 'kind': 'Namespace'})
+            return
+        if kind == 'ns_del':
+            for key in [k for k in list(kube.objs) if k[1] == op[1]]:
+                kube.force_remove(key[0], key[1], key[2])
+                kube.delete(key[0], key[1], key[2])
+            kube.delete('namespaces', None, op[1])
+            return
+        if kind == 'crd_add':
+            kube.add_resource(fakekube.resdef(**op[1]))
+            return
+        if kind == 'crd_del':
+            kube.remove_resource(op[1], op[2] if len(op) > 2 else 'kopf.dev')
+            return
         if kind == 'create':
             name, body = op[1], op[2]
             if kube.get(plural, ns, name) is None:
@@ -208,6 +236,10 @@ def run_world(desc: dict[str, Any], *, scoped: bool = True, capture_logs: bool =
             rec = {'priority': op[2], 'lifetime': op[3], 'lastseen': vtime.iso(sim.now())}
             rec.update(op[4] if len(op) > 4 and op[4] else {})
             kube.edit('clusterkopfpeerings', None, peering.get('name', 'default'), {'status': {op[1]: rec}})
+        elif kind == 'peer_raw':
+            from kv import vtime
+            rec = {k: (vtime.iso(sim.now()) if v == '$now' else v) for k, v in dict(op[2]).items()}
+            kube.edit('clusterkopfpeerings', None, peering.get('name', 'default'), {'status': {op[1]: rec}})
         elif kind == 'unpeer':
             kube.edit('clusterkopfpeerings', None, peering.get('name', 'default'), {'status': {op[1]: None}})
         elif kind == 'compact':
@@ -221,8 +253,8 @@ def run_world(desc: dict[str, Any], *, scoped: bool = True, capture_logs: bool =
 
     op_kwargs = desc.get('operator_kwargs') or {}
 
-    def start_inc(name: str) -> Incarnation:
-        inc = sim.operator(name, registry, mk_settings(), lifecycle=get_lifecycle(desc.get('lifecycle')), **dict(op_kwargs))
+    def start_inc(name: str, over: dict[str, Any] | None = None) -> Incarnation:
+        inc = sim.operator(name, registry, mk_settings(over), lifecycle=get_lifecycle(desc.get('lifecycle')), **dict(op_kwargs))
         w.incs[name] = inc
         inc.start()
         rak = desc.get('restart_after_kill')
@@ -244,7 +276,7 @@ def run_world(desc: dict[str, Any], *, scoped: bool = True, capture_logs: bool =
         for t, op, *args in desc.get('timeline', []):
             await sim.sleep_until(t)
             if op == 'start':
-                start_inc(args[0])
+                start_inc(args[0], args[1] if len(args) > 1 else None)     # optional per-operator settings (dunder keys)
             elif op == 'stop':
                 if args[0] in w.incs:
                     w.incs[args[0]].stop()
